@@ -304,6 +304,39 @@ class C07(Prop):
                              for steps in (["reply", "text", "eof"], ["reply_deflate", "ping", "silence"], ["reply_403", "eof"])
                              for pi in (0, 2) for proxy, tls in ((None, False), ("ok", False), ("ok", True))])]
 
+    # ---- real descriptors, platform selectors ---------------------------------------
+    def extra(self, tier, seed, acc):
+        """The simulated transport replaces the selector's wait; the platform selectors themselves (PollSelector,
+        SelectSelector) are exercised here on a real socketpair: the application's handler closes the session at
+        Ready / Poll / Text / Ping and keeps iterating - the iteration must end with one terminal event."""
+        import json as _json
+        import os as _os
+        import subprocess as _sp
+        import sys as _sys
+        from harness import boot
+        from harness.runner import case_hash
+        env = dict(_os.environ, VERIF_REPO=boot.REPO, PYTHONHASHSEED="0")
+        script = _os.path.join(boot.VERIF, "harness", "realnet.py")
+        try:
+            r = _sp.run([_sys.executable, script, "c07"], capture_output=True, text=True, env=env, timeout=300)
+        except _sp.TimeoutExpired:
+            return {"real_descriptors": "inconclusive: runner timeout"}
+        if r.returncode != 0:
+            raise boot.HarnessError("realnet.py c07 failed: " + r.stderr[-800:])
+        runs = _json.loads(r.stdout.strip().splitlines()[-1])
+        for run in runs:
+            case = {"real": True, "selector": run["selector"], "scenario": run["scenario"]}
+            acc.evaluations += 1
+            acc.nontrivial.add(case_hash(case))
+            key = "real:%s" % run["selector"]
+            acc.labels[key] = acc.labels.get(key, 0) + 1
+            if run.get("violation"):
+                acc.failure = ("no_termination_on_real_descriptor", "%s / %s: %s" % (run["selector"], run["scenario"],
+                                                                                   run["violation"]), case)
+                break
+        acc.stages["real_descriptors"] = {"evaluations": len(runs)}
+        return {"real_descriptor_runs": runs}
+
     def strategy(self, tier):
         action = st.one_of(
             st.just(["send_text", "x€"]), st.just(["send_binary", "00ff"]), st.just(["ping", "70"]),
